@@ -269,6 +269,23 @@ fn recipe_cases(docs: &[Value], conv: &Converter) -> Vec<Value> {
                         }
                     }
                 }
+                // there and back: a second conversion (to the other system) and a third (back) start from fitted fractions
+                // whose recorded error is part of the amount
+                let other = if matches!(sys, System::Metric) { System::Imperial } else { System::Metric };
+                let _ = guarded(|| {
+                    let _ = rec.convert(other, conv);
+                    let _ = rec.convert(sys, conv);
+                });
+                let again: Vec<Option<Quantity<QValue>>> = rec.ingredients.iter().map(|i| i.quantity.clone()).chain(rec.timers.iter().map(|t| t.quantity.clone()))
+                    .chain(rec.inline_quantities.iter().map(|q| Some(q.clone()))).collect();
+                for (b, a) in before.iter().zip(again.iter()) {
+                    let (Some(b), Some(a)) = (b, a) else { continue };
+                    if let (Some((blo, bhi, _)), Some((alo, ahi, _))) = (base(b), base(a)) {
+                        if (alo - blo).abs() > 1e-9 * blo.abs().max(1.0) || (ahi - bhi).abs() > 1e-9 * bhi.abs().max(1.0) {
+                            preserved = false;
+                        }
+                    }
+                }
                 out.push(json!({"kind_rec": "recipe", "text": text, "st": "ok", "system": format!("{sys}"), "preserved": preserved, "in_best": in_best,
                                 "unchanged_failures": unchanged_failures, "errors": errs.len(), "failures": failures, "convertible": convertible}));
             }
